@@ -546,6 +546,17 @@ CLAIMED["C16"]["text"] += (" Round 8 (vlib/c16foreign.py): foreign-but-valid fil
 CLAIMED["C19"]["text"] += (" Round 8 (vlib/foreignworld.py): a FOREIGN file (metadata-rich base x every foreign transformation) opened r / rw next to a WRITER of the same container, 10 containers, merges roundrobin / reverse / sequential, solo vs merged. "
                             "lean/SfProps/C19Text.lean: header_isolated -- under the rules `constant` (the code) and `handle` the header text of handle k's file is that of k's calls alone, for EVERY interleaving; the file-scope buffer is refuted.")
 
+CLAIMED["C05"]["text"] += (" Round 8 (gape): FOREIGN-BUT-VALID layouts (vlib/foreignread.py: SSND offset with chunks behind SSND, VOC text / repeat block chains, chunks around the audio in WAV / CAF / SVX / W64 / RF64, AU annotations, long NIST header) judged by Sf.Abs.holdsOn against the "
+                            "CONSTRUCTION (frames and streams of the library-written base file), theorems lean/SfProps/C05Foreign.lean; VOC block chains modelled (lean/SfModel/VocBlocks.lean, `sfmodel vocblocks`, lean/SfProps/C06VocBlocks.lean). Residual recorded: KF-SVX-BODY-PAD.")
+CLAIMED["C06"]["text"] += " Round 8 (gape): the same foreign-layout campaign for seeks and partitions (vlib/foreignread.py); text_then_sound (lean/SfProps/C06VocBlocks.lean): the VOC data offset depends on the length of the block chain only, for every text length below 2^24."
+CLAIMED["C07"]["text"] += (" Round 8 (gape): short transfers and EINTR on real descriptors (harness/shortio.c interposes read / write; vlib/shortio.py): the armed run and the unarmed run are one record of Sf.AbsWrite.judge (clause partition); retry loops modelled in "
+                            "lean/SfModel/ShortIo.lean, fwrite_complete / fwrite_prefix / fread_complete (lean/SfProps/C07ShortIo.lean), call counts tied by `sfmodel shortio`.")
+CLAIMED["C14"]["text"] += (" Round 8 (gape): descriptor ownership at sf_close when a close handler reports a problem (vlib/closeown.py; lean/SfModel/CloseOwn.lean, close_releases_iff_owned / close_blind_to_handlers in lean/SfProps/C14CloseOwn.lean) and the descriptor routes under short / "
+                            "interrupted read () and write () calls against virtual I/O (vlib/shortio.py).")
+CLAIMED["C15"]["text"] += (" Round 8 (gape): stage 3 also enumerates every fault point of foreign multi-block / multi-chunk headers (read workload) and of the rdwr workload through sf_read_raw / sf_write_raw (vlib/c15extra.py); the raw entry points are modelled over the oracle "
+                            "(lean/SfModel/FaultsRaw.lean, byte-for-byte in stage 2) with write_raw_seek_failure_contained / read_raw_seek_failure_contained (lean/SfProps/C15RawRw.lean).")
+
+
 def main():
     checks = []
     for p in PROPS:
